@@ -353,13 +353,526 @@ Section Style.
       assert (ztake (zlen (concat Ls ++ s)) f = concat Ls ++ s) as Ht.
       { rewrite H3, concat_app_single, <- !app_assoc, (app_assoc (concat Ls)). apply ztake_app_exact. }
       split; [|split; [exact Ht|right; now exists (concat lsR)]].
-      unfold dig_of. rewrite H4. rewrite (dig_scan_found (zlen f) true _ [] 0 lsR H2). cbv zeta.
-      rewrite last_last, keep_crlf. replace (zlen s <? 0) with false by (pose proof (zlen_nonneg s); lia).
+      unfold dig_of. rewrite H4.
+      pose proof (dig_scan_found (zlen f) true _ [] 0 lsR H2) as Hd. cbv zeta in Hd.
+      rewrite last_last, keep_crlf in Hd. replace (zlen s <? 0) with false in Hd by (pose proof (zlen_nonneg s); lia).
       exists true. eexists. split.
-      + f_equal.
+      + etransitivity; [exact Hd|]. f_equal.
         * rewrite app_comm_cons, removelast_last. cbn [map concat]. rewrite conv_nil. cbn [app].
           unfold pre_of. f_equal. f_equal. apply ztake_app_exact.
         * rewrite app_comm_cons, removelast_last. cbn [concat app]. rewrite ztake_app_exact, zlen_app. reflexivity.
-      + rewrite eol_crlf. rewrite H3 at 1. rewrite !zlen_app, concat_app_single, !zlen_app. lia.
+      + assert (zlen f = zlen (concat Ls) + zlen s + zlen crlf + zlen first + zlen (concat lsR)) as Hf
+          by (rewrite H3, !zlen_app, concat_app_single, !zlen_app; lia).
+        rewrite eol_crlf, concat_app_single, !zlen_app. lia.
   Qed.
 End Style.
+
+(* ================================================================== the patch text and the specified block *)
+Lemma chunks_n_fuel n : (1 <= n)%nat -> forall f1 f2 (l : bytes), (length l <= f1)%nat -> (length l <= f2)%nat ->
+  chunks_n f1 n l = chunks_n f2 n l.
+Proof.
+  intros Hn. induction f1 as [|f1 IH]; intros f2 l H1 H2.
+  - destruct l; [|cbn in H1; lia]. destruct f2; reflexivity.
+  - destruct l as [|x l]; [destruct f2; reflexivity|]. destruct f2 as [|f2]; [cbn in H2; lia|].
+    cbn [chunks_n]. f_equal. apply IH; rewrite skipn_length; cbn [length] in *; lia.
+Qed.
+Lemma concat_chunks n : (1 <= n)%nat -> forall fuel (l : bytes), (length l <= fuel)%nat -> concat (chunks_n fuel n l) = l.
+Proof.
+  intros Hn. induction fuel as [|fuel IH]; intros l H.
+  - destruct l; [reflexivity|cbn in H; lia].
+  - destruct l as [|x l]; [reflexivity|]. cbn [chunks_n concat]. rewrite IH; [apply firstn_skipn|].
+    rewrite skipn_length. cbn [length] in *. lia.
+Qed.
+Lemma chunks_forall (P : bytes -> Prop) n : (forall l, Forall (fun c => 0 <= c < 256) l -> P l) ->
+  forall fuel l, Forall (fun c => 0 <= c < 256) l -> Forall P (chunks_n fuel n l).
+Proof.
+  intros HP. induction fuel as [|fuel IH]; intros l H; [constructor|].
+  destruct l as [|x l]; [constructor|]. cbn [chunks_n]. constructor.
+  - apply HP. now apply Forall_firstn_.
+  - apply IH. now apply Forall_skipn_.
+Qed.
+
+Section Block.
+  Variables (i : bool) (st en : bytes).
+  Hypothesis Hsty : sty_ok st en.
+  Local Notation first := (firstW i st en).
+  Local Notation last := (lastW i st en).
+  Local Notation crlf := (crlfW i).
+
+  Definition bline (c : bytes) : bytes := st ++ c ++ en ++ [13; 10].
+  Lemma mp_line_eq c : ps_mp_line st c en = bline c.
+  Proof. unfold ps_mp_line, bline. now rewrite <- !app_assoc. Qed.
+
+  Lemma mp_lines_chunks b64 : forall fuel k, 0 <= k ->
+    mp_lines fuel st en b64 k = concat (map bline (chunks_n fuel 64 (zdrop k b64))).
+  Proof.
+    induction fuel as [|fuel IH]; intros k Hk; [reflexivity|].
+    cbn [mp_lines]. unfold ps_mp_more, ps_mp_chunk_end, ps_mp_clip, ps_mp_step.
+    destruct (k <? zlen b64) eqn:E.
+    - assert (zlen (zdrop k b64) = zlen b64 - k) as Hl by (apply zlen_zdrop; lia).
+      destruct (zdrop k b64) as [|x xs] eqn:Ed; [rewrite zlen_nil in Hl; lia|]. rewrite <- Ed in *.
+      replace (chunks_n (S fuel) 64 (zdrop k b64)) with (firstn 64 (zdrop k b64) :: chunks_n fuel 64 (skipn 64 (zdrop k b64)))
+        by (rewrite Ed; reflexivity).
+      cbn [map concat]. rewrite mp_line_eq, (IH (k + 64)) by lia. f_equal; [f_equal|].
+      + unfold zslice. destruct (k + 64 >? zlen b64) eqn:E2.
+        * rewrite ztake_all by lia. symmetry. apply firstn_all2. unfold zlen in *. lia.
+        * replace (k + 64 - k) with 64 by lia. reflexivity.
+      + f_equal. f_equal. replace (k + 64) with (64 + k) by lia. rewrite <- (zdrop_zdrop 64 k) by lia. reflexivity.
+    - rewrite zdrop_all by lia. reflexivity.
+  Qed.
+
+  Lemma patch_text_eq blob : ps_patch_text st en blob = spec_block_text st en blob.
+  Proof.
+    unfold ps_patch_text, spec_block_text, ps_mp_head, ps_mp_tail, spec_begin_line, spec_end_line, spec_crlf, chunks64.
+    rewrite mp_lines_chunks by lia. rewrite zdrop_0.
+    rewrite (chunks_n_fuel 64 ltac:(lia) (S (length (b64_enc blob))) (length (b64_enc blob))) by lia.
+    rewrite <- !app_assoc. reflexivity.
+  Qed.
+
+  Lemma ascii_bline c : b64_text c -> ascii (bline c).
+  Proof.
+    intros H. destruct Hsty as [H1 [H2 _]]. unfold bline.
+    repeat (apply ascii_app; split); auto using b64_text_ascii. ascii_tac.
+  Qed.
+  Lemma ascii_concat_blines cs : Forall b64_text cs -> ascii (concat (map bline cs)).
+  Proof.
+    induction 1 as [|c cs Hc Hcs IH]; [constructor|]. cbn [map concat]. apply ascii_app. split; [now apply ascii_bline|exact IH].
+  Qed.
+  Lemma b64_chunks_text blob : all_bytes blob = true -> Forall b64_text (chunks64 (b64_enc blob)).
+  Proof.
+    intros H. apply b64_enc_text in H. unfold chunks64. generalize (length (b64_enc blob)) as fuel.
+    revert H. generalize (b64_enc blob) as l. intros l H fuel. revert l H.
+    induction fuel as [|fuel IH]; intros l H; [constructor|]. destruct l as [|x l]; [constructor|].
+    cbn [chunks_n]. constructor; [now apply Forall_firstn_|apply IH; now apply Forall_skipn_].
+  Qed.
+
+  Definition wline (c : bytes) : bytes := spec_w i (bline c).
+  Lemma spec_w_concat cs : spec_w i (concat (map bline cs)) = concat (map wline cs).
+  Proof. induction cs as [|c cs IH]; [destruct i; reflexivity|]. cbn [map concat]. now rewrite spec_w_app, IH. Qed.
+
+  Lemma patch_eq blob : all_bytes blob = true ->
+    ps_patch st en i blob = crlf ++ first ++ concat (map wline (chunks64 (b64_enc blob))) ++ last
+    /\ ps_patch st en i blob = spec_w i (spec_block_text st en blob).
+  Proof.
+    intros Hb. pose proof (b64_chunks_text _ Hb) as Hc. destruct Hsty as [H1 [H2 _]].
+    assert (ps_patch st en i blob = spec_w i (spec_block_text st en blob)) as E.
+    { unfold ps_patch. rewrite patch_text_eq. apply marker_ascii. unfold spec_block_text, spec_crlf, spec_begin_line, spec_end_line, spec_crlf.
+      repeat (apply ascii_app; split); auto; try apply ps_begin_ascii; try apply ps_end_ascii; try ascii_tac.
+      now apply ascii_concat_blines. }
+    split; [|exact E]. rewrite E. unfold spec_block_text, spec_begin_line, spec_end_line, spec_crlf.
+    change (map (fun c : list Z => st ++ c ++ en ++ [13; 10])) with (map bline).
+    rewrite !spec_w_app, (spec_w_concat (chunks64 (b64_enc blob))).
+    rewrite (crlf_eq i), (first_eq i st en Hsty), (last_eq i st en Hsty), !spec_w_app, <- !app_assoc. reflexivity.
+  Qed.
+
+  Lemma cline_wline c : b64_text c -> cline i (wline c).
+  Proof.
+    intros H. unfold wline, bline. replace (st ++ c ++ en ++ [13; 10]) with ((st ++ c ++ en) ++ [13; 10]) by now rewrite <- !app_assoc.
+    apply cline_text. destruct Hsty as [_ [_ [H3 H4]]]. repeat (apply no10_app; split); auto using b64_text_no10.
+  Qed.
+
+  (* ================================================================ VerifyPowershell's loop on such a file *)
+  Lemma ver_skip ok : forall PL rest, Forall (fun l => l <> first) PL -> rest <> [] ->
+    ver_scan i st en first last ok false (PL ++ rest) = ver_scan i st en first last ok false rest.
+  Proof.
+    induction PL as [|l PL IH]; intros rest H Hr; [reflexivity|]. inversion H as [|? ? Hl H']; subst.
+    cbn [app ver_scan]. destruct (PL ++ rest) as [|x y] eqn:E; [destruct PL; [cbn in E; contradiction|discriminate]|]. rewrite <- E.
+    unfold ps_ver_notsigned, ps_ver_is_last, ps_ver_is_first. cbn [andb negb].
+    replace (bytes_eqb l first) with false by (symmetry; now apply bytes_eqb_neq). now apply IH.
+  Qed.
+  Lemma ver_first ok rest : rest <> [] ->
+    ver_scan i st en first last ok false (first :: rest) = ver_scan i st en first last ok true rest.
+  Proof.
+    intros Hr. cbn [ver_scan]. destruct rest as [|x y]; [contradiction|].
+    unfold ps_ver_notsigned, ps_ver_is_last, ps_ver_is_first. cbn [andb negb]. now rewrite bytes_eqb_refl.
+  Qed.
+
+  Lemma end_not_b64 : ~ b64_text ps_end.
+  Proof.
+    intros H. unfold b64_text in H. rewrite Forall_forall in H. specialize (H 32).
+    assert (In 32 ps_end) as Hin by (unfold ps_end; cbn [In]; tauto).
+    specialize (H Hin). unfold b64_alpha in H. lia.
+  Qed.
+  Lemma wline_neq_last c : b64_text c -> wline c <> last.
+  Proof.
+    intros H E. rewrite (last_eq i st en Hsty) in E. unfold wline in E. apply spec_w_inj in E. unfold bline in E.
+    rewrite <- !app_assoc in E. apply app_inv_head in E.
+    assert (c = ps_end) as ->; [|now apply end_not_b64].
+    apply (app_inv_tail (en ++ [13; 10])). exact E.
+  Qed.
+
+  Lemma ver_block ok : forall cs ds, Forall2 (fun c d => b64_text c /\ b64_dec c = Ok d) cs ds ->
+    ver_scan i st en first last ok true (map wline cs ++ [last; []]) = Ok (Some (concat ds)).
+  Proof.
+    induction 1 as [|c d cs ds [Hc Hd] Hr IH].
+    - cbn [map app ver_scan]. unfold ps_ver_notsigned, ps_ver_is_last. cbn [andb negb]. now rewrite bytes_eqb_refl.
+    - cbn [map app ver_scan]. destruct (map wline cs ++ [last; []]) as [|x y] eqn:E; [destruct cs; discriminate|]. rewrite <- E in *.
+      unfold ps_ver_notsigned, ps_ver_is_last. cbn [andb negb].
+      replace (bytes_eqb (wline c) last) with false by (symmetry; apply bytes_eqb_neq; now apply wline_neq_last).
+      assert ((if i then from_utf16 (wline c) else wline c) = bline c) as ->.
+      { unfold wline, spec_w. destruct i; [apply from_utf16_widen; now apply ascii_bline|reflexivity]. }
+      unfold ps_ver_malformed. unfold bline at 1 2.
+      rewrite has_prefix_app. replace (st ++ c ++ en ++ [13; 10]) with ((st ++ c) ++ en ++ [13; 10]) at 1 by now rewrite <- app_assoc.
+      rewrite has_suffix_app. cbn [negb orb].
+      unfold ps_ver_lo, ps_ver_hi.
+      assert (zlen (bline c) - zlen en - 2 = zlen st + zlen c) as ->.
+      { unfold bline. rewrite !zlen_app. change (zlen [13; 10]) with 2. lia. }
+      replace (zlen st + zlen c <? zlen st) with false by (pose proof (zlen_nonneg c); lia).
+      unfold bline. rewrite zslice_app_mid, Hd. cbn [bind]. rewrite IH. reflexivity.
+  Qed.
+End Block.
+
+(* ================================================================== base64 chunks of the block decode to the blob *)
+Lemma chunks_n_nil fuel n : chunks_n fuel n [] = [].
+Proof. destruct fuel; reflexivity. Qed.
+Lemma chunks_b64 : forall fuel blob, (length blob <= fuel)%nat ->
+  chunks_n fuel 64 (b64_enc blob) = map b64_enc (chunks_n fuel 48 blob).
+Proof.
+  induction fuel as [|fuel IH]; intros blob H.
+  - destruct blob; [reflexivity|cbn in H; lia].
+  - destruct blob as [|x l]; [reflexivity|].
+    destruct (b64_enc (x :: l)) as [|y ys] eqn:E; [apply (proj1 (b64_enc_nil_iff _)) in E; discriminate|]. rewrite <- E.
+    replace (chunks_n (S fuel) 64 (b64_enc (x :: l))) with (firstn 64 (b64_enc (x :: l)) :: chunks_n fuel 64 (skipn 64 (b64_enc (x :: l))))
+      by (rewrite E; reflexivity).
+    cbn [chunks_n map].
+    destruct (le_lt_dec 48 (length (x :: l))) as [Hge|Hlt].
+    + destruct (b64_firstn (x :: l) Hge) as [E1 E2]. rewrite E1, E2. f_equal. apply IH.
+      rewrite skipn_length. cbn [length] in *. lia.
+    + rewrite (firstn_all2 (n:=64)) by (apply b64_short; exact Hlt).
+      rewrite (firstn_all2 (n:=48)) by lia.
+      rewrite (skipn_all2 (n:=64)) by (apply b64_short; exact Hlt).
+      rewrite (skipn_all2 (n:=48)) by lia. now rewrite !chunks_n_nil.
+Qed.
+Lemma block_decodes blob : all_bytes blob = true ->
+  exists ds, Forall2 (fun c d => b64_text c /\ b64_dec c = Ok d) (chunks64 (b64_enc blob)) ds /\ concat ds = blob.
+Proof.
+  intros H. set (F := (length (b64_enc blob) + length blob)%nat).
+  exists (chunks_n F 48 blob). split.
+  - unfold chunks64. rewrite (chunks_n_fuel 64 ltac:(lia) _ F) by (unfold F; lia).
+    rewrite chunks_b64 by (unfold F; lia).
+    assert (Forall (fun d => all_bytes d = true) (chunks_n F 48 blob)) as Hd.
+    { apply chunks_forall; [intros l Hl; now apply all_bytes_forall|now apply all_bytes_forall]. }
+    induction Hd as [|d ds Hd Hds IH]; [constructor|]. cbn [map]. constructor; [|exact IH].
+    split; [now apply b64_enc_text|now apply b64_dec_enc].
+  - apply concat_chunks; unfold F; lia.
+Qed.
+
+(* ================================================================== the PowerShell laws on the stated domain *)
+Lemma is16_app A R : 2 <= zlen A -> ps_is16 (A ++ R) = ps_is16 A.
+Proof.
+  intros H. destruct A as [|a [|b A]]; [rewrite zlen_nil in H; lia|rewrite zlen_cons, zlen_nil in H; lia|reflexivity].
+Qed.
+
+Lemma ps_dom_style style f : ps_dom style f = true -> exists st en, style_lookup style = Some (st, en).
+Proof. unfold ps_dom. destruct (style_lookup style) as [[st en]|]; [eauto|discriminate]. Qed.
+
+Lemma ps_embed_shape style f blob g : ps_dom style f = true -> ps_embed style f blob = Ok g ->
+  exists st en Ls s,
+    style_lookup style = Some (st, en) /\ sty_ok st en /\
+    Forall (cline (ps_is16 f)) (Ls ++ [s ++ crlfW (ps_is16 f)]) /\
+    Forall (fun l => l <> firstW (ps_is16 f) st en) (Ls ++ [s ++ crlfW (ps_is16 f)]) /\
+    g = (concat Ls ++ s) ++ ps_patch st en (ps_is16 f) blob /\
+    ps_hashin style f = Ok (pre_of (ps_is16 f) Ls s) /\
+    ztake (zlen (concat Ls ++ s)) f = concat Ls ++ s /\
+    ((f = concat Ls ++ s /\ no10 s) \/ exists R, f = concat (Ls ++ [s ++ crlfW (ps_is16 f)]) ++ firstW (ps_is16 f) st en ++ R).
+Proof.
+  intros Hd He. unfold ps_dom in Hd. unfold ps_embed, ps_hashin, ps_digest in *.
+  destruct (style_lookup style) as [[st en]|] eqn:Es; [|discriminate].
+  pose proof (style_lookup_ok _ _ _ Es) as Hsty.
+  pose proof (dom_shape (ps_is16 f) st en Hsty f Hd) as Hshape.
+  destruct (dom_digest (ps_is16 f) st en Hsty f Hshape) as [Ls [s [H1 [H2 [[fd [ssz [H3 H4]]] [H5 H6]]]]]].
+  unfold dig_of, firstW in H3. destruct (ps_lines (ps_is16 f) f) as [ls ok]. rewrite H3 in *. cbn [bind d_tsz d_ssz d_is16 d_pre] in *.
+  assert (zlen (concat Ls ++ s) <= zlen f) as Hle.
+  { destruct H6 as [[-> _]|[R ->]]; [lia|]. rewrite concat_app_single, !zlen_app. pose proof (zlen_nonneg R).
+    pose proof (zlen_nonneg (firstW (ps_is16 f) st en)). pose proof (zlen_nonneg (crlfW (ps_is16 f))). lia. }
+  replace (zlen f <? zlen (concat Ls ++ s)) with false in He by lia.
+  injection He as Hg. subst g.
+  exists st, en, Ls, s. split; [reflexivity|]. split; [exact Hsty|]. split; [exact H1|]. split; [exact H2|].
+  split; [rewrite H5, (zdrop_all (zlen (concat Ls ++ s) + ssz)), app_nil_r by lia; reflexivity|].
+  split; [reflexivity|]. split; [exact H5|exact H6].
+Qed.
+
+Section Signed.
+  (* a file of the form  complete lines ++ begin line ++ block written for blob *)
+  Variables (i : bool) (st en : bytes) (PL : list bytes) (blob : bytes).
+  Hypothesis Hsty : sty_ok st en.
+  Hypothesis Hcl : Forall (cline i) PL.
+  Hypothesis Hnf : Forall (fun l => l <> firstW i st en) PL.
+  Hypothesis Hb : all_bytes blob = true.
+  Let g := concat PL ++ firstW i st en ++ concat (map (wline i st en) (chunks64 (b64_enc blob))) ++ lastW i st en.
+
+  Lemma signed_lines : ps_lines i g =
+    (PL ++ firstW i st en :: map (wline i st en) (chunks64 (b64_enc blob)) ++ [lastW i st en; []], true).
+  Proof.
+    unfold g.
+    replace (concat PL ++ firstW i st en ++ concat (map (wline i st en) (chunks64 (b64_enc blob))) ++ lastW i st en)
+      with (concat (PL ++ firstW i st en :: map (wline i st en) (chunks64 (b64_enc blob)) ++ [lastW i st en]) ++ []).
+    - rewrite ps_lines_concat.
+      + rewrite ps_lines_nil. f_equal. rewrite <- !app_assoc. cbn [app]. f_equal. f_equal. rewrite <- app_assoc. reflexivity.
+      + apply Forall_app. split; [assumption|]. constructor; [now apply cline_first|].
+        apply Forall_app. split; [|constructor; [now apply cline_last|constructor]].
+        pose proof (b64_chunks_text blob Hb) as Hc. induction Hc; cbn [map]; constructor; auto. now apply cline_wline.
+    - rewrite app_nil_r, concat_app. cbn [concat]. rewrite concat_app. cbn [concat]. now rewrite app_nil_r.
+  Qed.
+
+  Lemma signed_extract style : style_lookup style = Some (st, en) -> ps_is16 g = i -> ps_extract style g = Ok (Some blob).
+  Proof.
+    intros Es Ei. unfold ps_extract. rewrite Es, Ei, signed_lines.
+    fold (firstW i st en). fold (lastW i st en).
+    rewrite ver_skip by (auto; discriminate). rewrite ver_first by (destruct (chunks64 (b64_enc blob)); discriminate).
+    destruct (block_decodes blob Hb) as [ds [Hds <-]]. now apply ver_block.
+  Qed.
+
+  Lemma signed_digest style Ls s : style_lookup style = Some (st, en) -> ps_is16 g = i -> PL = Ls ++ [s ++ crlfW i] ->
+    ps_hashin style g = Ok (pre_of i Ls s).
+  Proof.
+    intros Es Ei EP. unfold ps_hashin, ps_digest. rewrite Es, Ei, signed_lines. fold (firstW i st en).
+    pose proof (dig_scan_found i st en (zlen g) true PL [] 0 (map (wline i st en) (chunks64 (b64_enc blob)) ++ [lastW i st en; []]) Hnf) as Hd.
+    cbv zeta in Hd. rewrite EP, last_last, (keep_crlf i) in Hd.
+    replace (zlen s <? 0) with false in Hd by (pose proof (zlen_nonneg s); lia).
+    rewrite <- EP in Hd at 1. rewrite Hd. cbn [bind d_pre]. f_equal.
+    rewrite app_comm_cons, removelast_last. cbn [map concat]. rewrite (conv_nil i). cbn [app].
+    unfold pre_of. f_equal. f_equal. apply ztake_app_exact.
+  Qed.
+End Signed.
+
+(* ================================================================== the specification reader: substring search *)
+Lemma find_sub_eq pat l pos :
+  find_sub pat l pos = if has_prefix l pat then Some pos else match l with [] => None | _ :: r => find_sub pat r (pos + 1) end.
+Proof. destruct l; reflexivity. Qed.
+Lemma zdrop_succ_cons {A} k (x : A) l : 0 <= k -> zdrop (k + 1) (x :: l) = zdrop k l.
+Proof. intros H. unfold zdrop. replace (Z.to_nat (k + 1)) with (S (Z.to_nat k)) by lia. reflexivity. Qed.
+Lemma find_sub_skip pat : forall a r pos,
+  (forall k, 0 <= k < zlen a -> has_prefix (zdrop k (a ++ r)) pat = false) ->
+  find_sub pat (a ++ r) pos = find_sub pat r (pos + zlen a).
+Proof.
+  induction a as [|x a IH]; intros r pos H.
+  - cbn [app]. rewrite zlen_nil. f_equal. lia.
+  - rewrite find_sub_eq. pose proof (H 0) as H0. rewrite zdrop_0 in H0. rewrite H0 by (rewrite zlen_cons; pose proof (zlen_nonneg a); lia).
+    cbn [app]. rewrite IH.
+    + f_equal. rewrite zlen_cons. lia.
+    + intros k Hk. rewrite <- (zdrop_succ_cons k x) by lia. apply H. rewrite zlen_cons. lia.
+Qed.
+Lemma no10_zdrop k l : no10 l -> no10 (zdrop k l).
+Proof. unfold no10, zdrop. intros H Hin. apply H. rewrite <- (firstn_skipn (Z.to_nat k) l). apply in_or_app. now right. Qed.
+Lemma bom_eq f : spec_bom16 f = ps_is16 f.
+Proof. destruct f as [|a [|b r]]; reflexivity. Qed.
+
+Section Find.
+  Variables (i : bool) (st en : bytes).
+  Hypothesis Hsty : sty_ok st en.
+  Local Notation first := (firstW i st en).
+  Local Notation crlf := (crlfW i).
+
+  Lemma crlf_split : exists cr cz, crlf = cr ++ nl i /\ cr = 13 :: cz /\ no10 cr /\ (forall z r, nl i = 10 :: z :: r -> z <> 13).
+  Proof.
+    rewrite crlf_eq. destruct i.
+    - exists [13; 0], [0]. repeat split; try reflexivity; [no10_tac|]. cbn [nl]. intros z r E. inversion E. lia.
+    - exists [13], []. repeat split; try reflexivity; [no10_tac|]. cbn [nl]. intros z r E. inversion E.
+  Qed.
+
+  Lemma occ_in_line l rest k : cline i l -> 0 <= k < zlen l ->
+    has_prefix (zdrop k (l ++ rest)) (crlf ++ first) = true ->
+    k = zlen l - zlen crlf /\ has_prefix rest first = true.
+  Proof.
+    intros [body [-> Hb]] Hk H. apply has_prefix_spec in H as [y Hy].
+    destruct crlf_split as [cr [cz [Ec [Ecr [Hcr Hz]]]]]. rewrite Ec in *.
+    destruct (nl_head i) as [z [Ez Hzz]]. rewrite Ez in *. rewrite !zlen_app, zlen_cons in *.
+    destruct (Z_le_gt_dec k (zlen body)) as [Hle|Hgt].
+    - rewrite <- !app_assoc in Hy. rewrite zdrop_app_l in Hy by lia. cbn [app] in Hy.
+      apply split_first10 in Hy as [E1 E2]; [|now apply no10_zdrop|assumption].
+      apply app_inv_head in E2. split.
+      + assert (zlen (zdrop k body) = zlen body - k) as Hl by (apply zlen_zdrop; lia). rewrite E1 in Hl. lia.
+      + apply has_prefix_spec. exists y. exact E2.
+    - (* k points into the terminator: only possible for the two-byte terminator, where the byte there is not CR *)
+      exfalso. rewrite <- app_assoc, zdrop_app_r in Hy by lia.
+      destruct z as [|z0 z']; [unfold zlen in Hk, Hgt; cbn [length] in Hk; lia|].
+      assert (k - zlen body = 1) as Hk1.
+      { destruct i; cbn [nl] in Ez; inversion Ez; subst. unfold zlen in Hk, Hgt |- *. cbn [length] in Hk. lia. }
+      rewrite Hk1 in Hy. cbn [app] in Hy. change (zdrop 1 (10 :: z0 :: z' ++ rest)) with (z0 :: z' ++ rest) in Hy.
+      rewrite Ecr in Hy. cbn [app] in Hy. inversion Hy. eapply Hz; eauto.
+  Qed.
+  Lemma occ_first_line l rest : cline i l -> has_prefix (l ++ rest) first = true -> l = first.
+  Proof.
+    intros Hl H. apply has_prefix_spec in H as [y Hy].
+    destruct (cline_prefix_eq i l rest first y Hl (cline_first i st en Hsty) Hy) as [E _]. exact E.
+  Qed.
+  Lemma occ_first_no10 x : no10 x -> has_prefix x first = false.
+  Proof.
+    intros H. destruct (has_prefix x first) eqn:E; [|reflexivity]. exfalso.
+    apply has_prefix_spec in E as [y ->]. apply H. apply in_or_app. left. eapply cline_has10. now apply cline_first.
+  Qed.
+  Lemma find_sub_no10 : forall l pos, no10 l -> find_sub (crlf ++ first) l pos = None.
+  Proof.
+    induction l as [|x l IH]; intros pos H; rewrite find_sub_eq.
+    - destruct (has_prefix [] (crlf ++ first)) eqn:E; [|reflexivity]. apply has_prefix_spec in E as [y Hy].
+      destruct crlf_split as [cr [cz [Ec [Ecr _]]]]. rewrite Ec, Ecr in Hy. discriminate.
+    - destruct (has_prefix (x :: l) (crlf ++ first)) eqn:E.
+      + exfalso. apply has_prefix_spec in E as [y Hy]. apply H. rewrite Hy. apply in_or_app. left. apply in_or_app. right.
+        eapply cline_has10. now apply cline_first.
+      + apply IH. apply no10_cons in H. tauto.
+  Qed.
+
+  Lemma find_sub_lines R : forall PL pos, Forall (cline i) PL -> Forall (fun l => l <> first) PL -> PL <> [] ->
+    has_suffix (List.last PL []) crlf = true ->
+    find_sub (crlf ++ first) (concat PL ++ first ++ R) pos = Some (pos + zlen (concat PL) - zlen crlf).
+  Proof.
+    induction PL as [|l PL IH]; intros pos Hc Hn Hne Hs; [contradiction|].
+    inversion Hc as [|? ? Hl Hc']; subst. inversion Hn as [|? ? Hnl Hn']; subst.
+    destruct PL as [|l2 PL'].
+    - cbn [List.last concat] in *. rewrite app_nil_r. apply has_suffix_spec in Hs as [a ->].
+      rewrite <- !app_assoc. rewrite find_sub_skip.
+      + rewrite find_sub_eq. rewrite (app_assoc crlf first R), has_prefix_app. f_equal. rewrite zlen_app. lia.
+      + intros k Hk. destruct (has_prefix (zdrop k (a ++ crlf ++ first ++ R)) (crlf ++ first)) eqn:E; [|reflexivity].
+        exfalso. rewrite (app_assoc a crlf) in E. apply occ_in_line in E as [E _]; [|assumption|rewrite zlen_app; pose proof (zlen_nonneg crlf); lia].
+        rewrite zlen_app in E. lia.
+    - change (concat (l :: l2 :: PL')) with (l ++ concat (l2 :: PL')). rewrite <- app_assoc. rewrite find_sub_skip.
+      + rewrite (IH (pos + zlen l)); auto; [|discriminate].
+        f_equal. rewrite zlen_app. lia.
+      + intros k Hk. destruct (has_prefix (zdrop k (l ++ concat (l2 :: PL') ++ first ++ R)) (crlf ++ first)) eqn:E; [|reflexivity].
+        exfalso. apply occ_in_line in E as [_ E]; [|assumption|assumption].
+        cbn [concat] in E. rewrite <- app_assoc in E. inversion Hc' as [|? ? Hl2 _]; subst. inversion Hn' as [|? ? Hn2 _]; subst.
+        apply Hn2. eapply occ_first_line; eauto.
+  Qed.
+
+  Lemma find_sub_none : forall Ls s pos, Forall (cline i) Ls -> Forall (fun l => l <> first) Ls -> no10 s ->
+    find_sub (crlf ++ first) (concat Ls ++ s) pos = None.
+  Proof.
+    induction Ls as [|l Ls IH]; intros s pos Hc Hn Hs.
+    - cbn [concat app]. now apply find_sub_no10.
+    - inversion Hc as [|? ? Hl Hc']; subst. inversion Hn as [|? ? Hnl Hn']; subst.
+      cbn [concat]. rewrite <- app_assoc. rewrite find_sub_skip; [now apply IH|].
+      intros k Hk. destruct (has_prefix (zdrop k (l ++ concat Ls ++ s)) (crlf ++ first)) eqn:E; [|reflexivity].
+      exfalso. apply occ_in_line in E as [_ E]; [|assumption|assumption].
+      destruct Ls as [|l2 Ls'].
+      + cbn [concat app] in E. rewrite occ_first_no10 in E by assumption. discriminate.
+      + cbn [concat] in E. rewrite <- app_assoc in E. inversion Hc' as [|? ? Hl2 _]; subst. inversion Hn' as [|? ? Hn2 _]; subst.
+        apply Hn2. eapply occ_first_line; eauto.
+  Qed.
+
+  Lemma spec_pat_eq : spec_w i (spec_crlf ++ spec_begin_line st en) = crlf ++ first.
+  Proof.
+    rewrite spec_w_app, crlf_eq, (first_eq i st en Hsty). unfold spec_crlf, spec_begin_line, spec_crlf.
+    rewrite <- !app_assoc. reflexivity.
+  Qed.
+End Find.
+
+(* ================================================================== assembled: what embedding does on the domain *)
+Lemma concat_PL i Ls s : concat (Ls ++ [s ++ crlfW i]) = (concat Ls ++ s) ++ crlfW i.
+Proof. rewrite concat_app_single. now rewrite app_assoc. Qed.
+
+Lemma zlen_crlf_ge i : 2 <= zlen (crlfW i).
+Proof. rewrite zlen_crlf. destruct i; lia. Qed.
+
+Record embedded (style : Z) (f blob g : bytes) (st en : bytes) (Ls : list bytes) (s : bytes) : Prop := mkEmbedded {
+  em_style : style_lookup style = Some (st, en);
+  em_sty : sty_ok st en;
+  em_cl : Forall (cline (ps_is16 f)) (Ls ++ [s ++ crlfW (ps_is16 f)]);
+  em_nf : Forall (fun l => l <> firstW (ps_is16 f) st en) (Ls ++ [s ++ crlfW (ps_is16 f)]);
+  em_g : g = concat (Ls ++ [s ++ crlfW (ps_is16 f)]) ++ firstW (ps_is16 f) st en
+             ++ concat (map (wline (ps_is16 f) st en) (chunks64 (b64_enc blob))) ++ lastW (ps_is16 f) st en;
+  em_spec : g = (concat Ls ++ s) ++ spec_w (ps_is16 f) (spec_block_text st en blob);
+  em_is16 : ps_is16 g = ps_is16 f;
+  em_hash : ps_hashin style f = Ok (pre_of (ps_is16 f) Ls s);
+  em_take : ztake (zlen (concat Ls ++ s)) f = concat Ls ++ s;
+  em_f : (f = concat Ls ++ s /\ no10 s) \/
+         exists R, f = concat (Ls ++ [s ++ crlfW (ps_is16 f)]) ++ firstW (ps_is16 f) st en ++ R
+}.
+
+Lemma embed_form style f blob g : ps_dom style f = true -> all_bytes blob = true -> ps_embed style f blob = Ok g ->
+  exists st en Ls s, embedded style f blob g st en Ls s.
+Proof.
+  intros Hd Hb He. destruct (ps_embed_shape _ _ _ _ Hd He) as [st [en [Ls [s [H1 [H2 [H3 [H4 [H5 [H6 [H7 H8]]]]]]]]]]].
+  exists st, en, Ls, s. destruct (patch_eq (ps_is16 f) st en H2 blob Hb) as [P1 P2].
+  assert (g = concat (Ls ++ [s ++ crlfW (ps_is16 f)]) ++ firstW (ps_is16 f) st en
+              ++ concat (map (wline (ps_is16 f) st en) (chunks64 (b64_enc blob))) ++ lastW (ps_is16 f) st en) as Eg.
+  { rewrite H5, P1, concat_PL, <- !app_assoc. reflexivity. }
+  constructor; auto.
+  - rewrite H5, P2. reflexivity.
+  - (* the encoding flag is read from the first two bytes, which signing keeps *)
+    pose proof (zlen_crlf_ge (ps_is16 f)) as Hc.
+    assert (ps_is16 g = ps_is16 ((concat Ls ++ s) ++ crlfW (ps_is16 f))) as E1.
+    { rewrite Eg, concat_PL. apply is16_app. rewrite zlen_app. pose proof (zlen_nonneg (concat Ls ++ s)). lia. }
+    rewrite E1. destruct H8 as [[Hf Hs]|[R Hf]].
+    + rewrite <- Hf. destruct (Z_le_gt_dec 2 (zlen f)) as [Hge|Hlt]; [now apply is16_app|].
+      assert (ps_is16 f = false) as Ef.
+      { destruct f as [|a [|b r]]; try reflexivity. rewrite !zlen_cons in Hlt. pose proof (zlen_nonneg r). lia. }
+      rewrite Ef. destruct f as [|a [|b r]]; [reflexivity| |rewrite !zlen_cons in Hlt; pose proof (zlen_nonneg r); lia].
+      cbn. unfold ps_bom_cond. cbn. now rewrite andb_false_r.
+    + rewrite Hf at 2. rewrite concat_PL. symmetry. apply is16_app. rewrite zlen_app. pose proof (zlen_nonneg (concat Ls ++ s)). lia.
+Qed.
+
+Theorem ps_law_extract_dom style f blob g :
+  ps_dom style f = true -> all_bytes blob = true -> ps_embed style f blob = Ok g -> ps_extract style g = Ok (Some blob).
+Proof.
+  intros Hd Hb He. destruct (embed_form _ _ _ _ Hd Hb He) as [st [en [Ls [s E]]]]. destruct E.
+  rewrite em_g0. apply signed_extract; auto. rewrite <- em_g0. exact em_is17.
+Qed.
+Theorem ps_law_hashin_dom style f blob g :
+  ps_dom style f = true -> all_bytes blob = true -> ps_embed style f blob = Ok g -> ps_hashin style g = ps_hashin style f.
+Proof.
+  intros Hd Hb He. destruct (embed_form _ _ _ _ Hd Hb He) as [st [en [Ls [s E]]]]. destruct E.
+  rewrite em_hash0, em_g0. eapply signed_digest; eauto. rewrite <- em_g0. exact em_is17.
+Qed.
+
+(* ================================================================== the specification reader on such files *)
+Lemma payload_unsigned style f st en Ls s :
+  style_lookup style = Some (st, en) -> sty_ok st en ->
+  Forall (cline (ps_is16 f)) Ls -> Forall (fun l => l <> firstW (ps_is16 f) st en) Ls -> no10 s -> f = concat Ls ++ s ->
+  ps_payload style f = Ok f /\ ps_spec_signed style f = false.
+Proof.
+  intros Es Hsty Hc Hn Hs Hf. unfold ps_payload, ps_spec_signed. rewrite spec_style_eq, Es, bom_eq, (spec_pat_eq _ _ _ Hsty).
+  pose proof (find_sub_none (ps_is16 f) st en Hsty Ls s 0 Hc Hn Hs) as E. rewrite <- Hf in E. rewrite E. split; reflexivity.
+Qed.
+Lemma payload_signed style f st en Ls s R :
+  style_lookup style = Some (st, en) -> sty_ok st en ->
+  Forall (cline (ps_is16 f)) (Ls ++ [s ++ crlfW (ps_is16 f)]) ->
+  Forall (fun l => l <> firstW (ps_is16 f) st en) (Ls ++ [s ++ crlfW (ps_is16 f)]) ->
+  f = concat (Ls ++ [s ++ crlfW (ps_is16 f)]) ++ firstW (ps_is16 f) st en ++ R ->
+  ps_payload style f = Ok (concat Ls ++ s) /\ ps_spec_signed style f = true.
+Proof.
+  intros Es Hsty Hc Hn Hf. unfold ps_payload, ps_spec_signed. rewrite spec_style_eq, Es, bom_eq, (spec_pat_eq _ _ _ Hsty).
+  assert (find_sub (crlfW (ps_is16 f) ++ firstW (ps_is16 f) st en) f 0 = Some (zlen (concat Ls ++ s))) as E.
+  { pose proof (find_sub_lines (ps_is16 f) st en Hsty R _ 0 Hc Hn) as E. rewrite <- Hf in E. rewrite E.
+    - f_equal. rewrite concat_PL, zlen_app. lia.
+    - destruct Ls; discriminate.
+    - rewrite last_last. apply has_suffix_app. }
+  rewrite E. split; [|reflexivity]. f_equal.
+  assert (f = (concat Ls ++ s) ++ crlfW (ps_is16 f) ++ firstW (ps_is16 f) st en ++ R) as Hf2 by (rewrite Hf at 1; rewrite concat_PL, <- !app_assoc; reflexivity).
+  rewrite Hf2 at 1. apply ztake_app_exact.
+Qed.
+
+Lemma Forall_app_l {A} (P : A -> Prop) a b : Forall P (a ++ b) -> Forall P a.
+Proof. intros H. now apply Forall_app in H. Qed.
+
+Lemma payload_of_embedded style f blob g st en Ls s : embedded style f blob g st en Ls s ->
+  ps_payload style f = Ok (concat Ls ++ s) /\ ps_payload style g = Ok (concat Ls ++ s) /\ ps_spec_signed style g = true
+  /\ (ps_spec_signed style f = false -> f = concat Ls ++ s).
+Proof.
+  intros E. destruct E. split; [|split; [|split]].
+  - destruct em_f0 as [[Hf Hs]|[R Hf]].
+    + destruct (payload_unsigned style f st en Ls s em_style0 em_sty0 (Forall_app_l _ _ _ em_cl0) (Forall_app_l _ _ _ em_nf0) Hs Hf) as [E _].
+      rewrite E. f_equal. exact Hf.
+    + eapply payload_signed; eauto.
+  - rewrite <- em_is17 in em_cl0, em_nf0, em_g0. eapply payload_signed; eauto.
+  - rewrite <- em_is17 in em_cl0, em_nf0, em_g0. eapply payload_signed; eauto.
+  - intros Hu. destruct em_f0 as [[Hf Hs]|[R Hf]]; [exact Hf|].
+    destruct (payload_signed _ _ _ _ _ _ _ em_style0 em_sty0 em_cl0 em_nf0 Hf) as [_ E]. congruence.
+Qed.
+
+Theorem ps_law_payload_dom style f blob g :
+  ps_dom style f = true -> all_bytes blob = true -> ps_embed style f blob = Ok g -> ps_payload style g = ps_payload style f.
+Proof.
+  intros Hd Hb He. destruct (embed_form _ _ _ _ Hd Hb He) as [st [en [Ls [s E]]]].
+  destruct (payload_of_embedded _ _ _ _ _ _ _ _ E) as [H1 [H2 _]]. congruence.
+Qed.
+(* C05 / C03: the signed file is the content followed by exactly the specified block, in the file's encoding *)
+Theorem ps_embed_eq_spec_dom style f blob g st en :
+  ps_dom style f = true -> all_bytes blob = true -> ps_embed style f blob = Ok g -> spec_style style = Some (st, en) ->
+  exists p, ps_payload style f = Ok p /\ g = p ++ spec_w (spec_bom16 f) (spec_block_text st en blob).
+Proof.
+  intros Hd Hb He Hs. destruct (embed_form _ _ _ _ Hd Hb He) as [st' [en' [Ls [s E]]]].
+  destruct (payload_of_embedded _ _ _ _ _ _ _ _ E) as [H1 _]. destruct E.
+  rewrite spec_style_eq, em_style0 in Hs. injection Hs as E1 E2. rewrite <- E1, <- E2.
+  exists (concat Ls ++ s). split; [exact H1|]. rewrite bom_eq. exact em_spec0.
+Qed.
